@@ -858,8 +858,8 @@ def check_caches(run, modules, rule, functions=None, prog=None, zero_is_a_value=
                 run.subject(rule)
                 run.fail(rule, '%s|%s|unbound:%s' % (mi.name, name, nb_.id), mi.relpath, nb_.lineno,
                          "%s reads '%s', which is bound nowhere: it is not a parameter, is assigned on no path of the function and is not a name "
-                         "of the module (or its declaration file) or a builtin -- the call raises NameError / UnboundLocalError instead of "
-                         "computing its result" % (name, nb_.id))
+                         "of the module (or its declaration file) or a builtin -- the call raises NameError / UnboundLocalError (a declared C local "
+                         "that is only augmented starts from an undefined value) instead of computing its result" % (name, nb_.id))
             from .rules._purity import falsy_numeric_default
             # only where 0 is a meaningful argument (bounds, coordinates of the function wrappers); elsewhere 'count or default' treats 0 as 'unset' on purpose
             for n_, x_ in (falsy_numeric_default(fn) if zero_is_a_value else ()):
